@@ -17,9 +17,9 @@ from .. import effects, guards
 
 MANIFEST = {
     "level": "other",
-    "technique": "static analysis: literal-table audit against the IERS leap-second list, taint rule on the January/February shift (symbolic evaluation of _compute_jde), inverse-guard comparison of the two activation predicates, branch sibling comparison for the override, polynomial extraction and exact evaluation of the Delta-T segments",
-    "text": "The table clause is decided outright (the table is a literal). The offset clauses are decided structurally for every date at once: the leap-second lookup and the 1972 threshold see the civil year/month, construction and read-back switch on at the same (year, month) = (1972, 1), and the override branch is the automatic branch with the table value replaced. The Delta-T clauses are decided on the polynomials extracted from the source. Which table entry leap_seconds(y, m) selects for a given month, and the 1 ms read-back, are not decided.",
-    "note": "Trusted: the IERS Bulletin C history embedded in the checker (27 insertions 1972-2016); TT-TAI = 32.184 s and TAI-UTC(1972-01-01) = 10 s as stated in the property. Undecided: month arithmetic inside leap_seconds() (e.g. 2016-12), 1 ms read-back.",
+    "technique": "static analysis: literal-table audit against the IERS leap-second list, taint rule on the January/February shift (symbolic evaluation of _compute_jde), inverse-guard comparison of the two activation predicates, branch sibling comparison for the override, partial evaluation of constructor and read-back for every keyword combination, recovery of the decision structure of leap_seconds(year, month) (loop over the literal table unrolled) and comparison with the IERS step function on every ordering class, polynomial extraction and exact evaluation of the Delta-T segments",
+    "text": "The table clause is decided outright (the table is a literal). The offset clauses are decided structurally for every date at once: the leap-second lookup and the 1972 threshold see the civil year/month, construction and read-back switch on at the same (year, month) = (1972, 1), the override branch is the automatic branch with the table value replaced, every combination of the utc / leap_seconds / local keywords reaches the documented branch (a supplied value always wins), and leap_seconds(year, month) selects the IERS count for every (year, month). The Delta-T clauses are decided on the polynomials extracted from the source. The 1 ms read-back is not decided.",
+    "note": "Trusted: the IERS Bulletin C history embedded in the checker (27 insertions 1972-2016); TT-TAI = 32.184 s and TAI-UTC(1972-01-01) = 10 s as stated in the property. Undecided: 1 ms read-back.",
 }
 
 # IERS Bulletin C: dates at which the cumulative count becomes n (1 July -> year + 0.5, 1 January -> year + 0.0)
